@@ -65,6 +65,11 @@ def run(F, rep, tier, allfacts):
             _, t, fl = bc[0]
             rt, rf_ = cfg.reachable_incl(t), cfg.reachable_incl(fl)
             good = all(b in rt and b not in rf_ for b in okb) and all(b in rf_ and b not in rt for b in errb) and all(cfg.dominates(isok[0], b) for b in okb)
+    if not good and not okb:
+        # `verify_strict(..).map_err(|_| Error::InvalidSignature)` returned as is: Ok exactly when verify_strict is Ok
+        me = [(i, [describe(f, a, depth=12) for a in args]) for i, c, args, dest, *_ in calls(f) if callee_matches(c, r"Result::<T, E>::map_err$") and dest == [0]]
+        cl_err = any(any(rv[0] == "agg" and rv[2] == "InvalidSignature" for _, _, _, rv, _ in assignments(cf)) for cn, cf in F.find(r"^fuel_crypto::ed25519::verify::\{closure#\d+\}$", ["fuel_crypto"], required=False))
+        good = len(me) == 1 and "call:verify_strict(" in me[0][1][0] and cl_err
     rep.check(good, "TAB-ed25519", "Ok-iff-verify_strict.is_ok()", where, "Ok(()) must be returned exactly on the is_ok() branch of verify_strict and InvalidSignature on the other")
 
     # ---------------- signature format
@@ -80,8 +85,9 @@ def run(F, rep, tier, allfacts):
     # normalisation assertion: Shr(sig[32],7) == 0 else panic, before the write
     cfg = CFG(f)
     from fvlib.core import guards
-    gs = [g for g in guards(f) if g["op"] == "Eq" and ((re.match(r"^Shr\(arg:\w+\[(const:)?32\],const:7\)$", g["a_desc"]) and g["b_desc"] == "const:0") or
-                                                      (re.match(r"^Shr\(arg:\w+\[(const:)?32\],const:7\)$", g["b_desc"]) and g["a_desc"] == "const:0"))]
+    # bit 7 of byte 32 must be clear: `sig[32] >> 7 == 0` or `sig[32] & 0x80 == 0`
+    HI = r"^(Shr\(arg:\w+\[(const:)?32\],const:7\)|BitAnd\(arg:\w+\[(const:)?32\],const:128\))$"
+    gs = [g for g in guards(f) if g["op"] == "Eq" and ((match_commuted(HI, g["a_desc"]) and g["b_desc"] == "const:0") or (match_commuted(HI, g["b_desc"]) and g["a_desc"] == "const:0"))]
     pan = call_blocks(f, r"panicking::panic")
     wb = [i for i, j, p, rv, line in assignments(f) if p[0] == 1 and len(p) > 1]
     ok = len(gs) == 1 and pan and wb and all(b in cfg.reachable_incl(gs[0]["f"]) for b in pan) and not any(b in cfg.reachable_incl(gs[0]["t"]) for b in pan) and \
